@@ -167,12 +167,50 @@ def rand_ktensor_parts(rng, shape, R, weights="mixed"):
         w = np.round(rng.uniform(0.5, 3.0, R), 6)
     else:
         w = np.round(rng.uniform(0.5, 3.0, R), 6) * rng.choice([-1.0, 1.0], size=R)
+        if rng.random() < 0.3:
+            w[int(rng.integers(0, R))] = 1.0        # an exact unit weight next to others (a model normalised on one component)
     return w, fm
+
+
+def structured_factor(rng, n, r):
+    """A factor matrix of a recognisable class -- the kinds real models carry and shortcuts key on: a (rectangular) identity block
+    (zero-padding / embedding), orthonormal columns (what hosvd / tucker_als / QR return), unit-length but non-orthogonal columns (a
+    column-normalised model), a row selector / permutation, or generic values."""
+    c = int(rng.integers(0, 10))
+    if c == 0:
+        return np.eye(n, r), "eye"
+    if c == 1 and n >= r:
+        q, _ = np.linalg.qr(rng.standard_normal((n, r)))
+        return q, "orth"
+    if c == 2:
+        a = rng.standard_normal((n, r))
+        return a / np.linalg.norm(a, axis=0, keepdims=True), "unitcols"
+    if c == 3:
+        a = np.zeros((n, r))
+        a[rng.integers(0, n, size=r), np.arange(r)] = 1.0
+        return a, "select"
+    return normals(rng, (n, r)), "normal"
+
+
+def weight_vector(rng, R, signed=True):
+    """Kruskal weights of a recognisable class: generic, all one, an exact 1.0 next to other values (a model normalised on one
+    component), or one zero weight (a component switched off)."""
+    w = np.round(rng.uniform(0.5, 2.0, R), 4)
+    if signed:
+        w = w * rng.choice([-1.0, 1.0], size=R)
+    c = int(rng.integers(0, 8))
+    if c == 0:
+        w[:] = 1.0
+    elif c in (1, 2):
+        w[int(rng.integers(0, R))] = 1.0
+    elif c == 3 and R >= 2:
+        w[int(rng.integers(0, R))] = 0.0
+    return w
 
 
 def rand_ttensor_parts(rng, shape, ranks):
     core = normals(rng, tuple(ranks))
-    fm = [normals(rng, (s, r)) for s, r in zip(shape, ranks)]
+    fm = [structured_factor(rng, s, r)[0] for s, r in zip(shape, ranks)]
     return core, fm
 
 
